@@ -193,3 +193,17 @@ class Scan:
         for q in quals:
             if q in self.errors:
                 raise AnalysisError(f"{q}: {self.errors[q]}")
+
+
+def sched_targets(eng: Engine, p: Path, e: Event, fi: FuncInfo):
+    """what a scheduling request will eventually call: [(callee term, args, kwargs)].  A lambda callback is
+    evaluated with late-bound free variables (the values at the end of path p)."""
+    if e.cb is None:
+        return []
+    if e.cb[0] in ("bound", "func"):
+        return [(e.cb, tuple(e.cbargs), tuple(e.cbkwargs))]
+    if e.cb[0] == "closure":
+        calls = eng.deferred_lambda_calls(e.cb, p.env, fi)
+        if calls is not None:
+            return [(c.fterm, tuple(c.args), tuple(c.kwargs)) for c in calls if c.fterm is not None and c.fterm[0] in ("bound", "func")]
+    return []
